@@ -188,31 +188,47 @@ def r1_factory(ctx, mod, pc) -> None:
             'R1', '_validate_bounds rejects non-finite and reversed bounds', vbf.node if vbf else fi.node,
             'finite test and order test both raise', '_validate_bounds no longer rejects non-finite or reversed bounds',
             construct='validate_bounds', func=PCMOD + '._validate_bounds')
-  dup = raising_test(lambda t: 'len(set(feasible_values)) != len(feasible_values)' in t)
-  # duplicate check dominates both feasible arms
-  fv_arms = [n for n in g.nodes if n.kind == 'test' and unparse(n.ast, 0).startswith('all(') and 'isinstance(v,' in unparse(n.ast, 0)]
-  okd = bool(dup) and all(dup[0].id in g.dominators()[a.id] for a in fv_arms) and len(fv_arms) >= 2
+  # feasible values: from the branch on which they are given, every path to the constructor (a) passes the duplicate
+  # test, (b) passes one of the two normalisers, each under its own kind test (so mixed kinds cannot get through)
+  # the branch that selects the feasible-values arm: a test on feasible_values whose true side reaches a normaliser
+  norm_nodes = [n for n in g.nodes if any((dotted(c.func) or '') in ('_get_feasible_points_and_bounds', '_get_categories')
+                                          for c in flow.node_calls(n))]
+  fv_tests = [n for n in g.nodes if n.kind == 'test' and unparse(n.ast, 0) in ('feasible_values', 'feasible_values is not None')
+              and any(x in g.reachable([m for m, lab in n.succs if lab == 'T'], include_starts=True) for x in norm_nodes)
+              and not any(x in g.reachable([m for m, lab in n.succs if lab == 'F'], blocked=[n], include_starts=True) for x in norm_nodes)]
+  if not fv_tests:
+    raise AnalysisError('factory: test on feasible_values not found')
+  fv_true = [m for t_ in fv_tests for m, lab in t_.succs if lab == 'T']
+
+  def is_dup_test(t: str) -> bool:
+    return 'len(set(' in t and 'len(' in t.replace('len(set(', '', 1) and ('!=' in t or '<' in t or '>' in t)
+  dup = raising_test(is_dup_test)
+  okd = bool(dup) and cn not in g.reachable([x for x in fv_true if x not in dup], blocked=dup, include_starts=True)
   ctx.check(okd, 'R1', 'duplicate feasible values rejected before type inference', fi.node,
-            'duplicate test dominates the numeric and categorical arms', 'duplicate feasible values are not rejected on every path',
-            construct='duplicates', func=fi.qualname)
+            'every path from "feasible values given" to the constructor passes the raising duplicate test',
+            'duplicate feasible values are not rejected on every path', construct='duplicates', func=fi.qualname)
   num = [n for n in g.nodes if any((dotted(c.func) or '') == '_get_feasible_points_and_bounds' for c in flow.node_calls(n))]
   cat = [n for n in g.nodes if any((dotted(c.func) or '') == '_get_categories' for c in flow.node_calls(n))]
   f1, f2 = mod.functions.get('_get_feasible_points_and_bounds'), mod.functions.get('_get_categories')
   t1 = unparse(f1.node, 0) if f1 else ''
   t2 = unparse(f2.node, 0) if f2 else ''
-  ctx.check(bool(num) and 'sorted(' in t1 and 'isfinite' in t1 and 'raise' in t1, 'R1', 'numeric feasible values: finite and sorted', fi.node,
-            '_get_feasible_points_and_bounds checks finiteness and sorts', 'numeric feasible values are not normalised (finite, sorted)',
-            construct='numeric-fv', func=fi.qualname)
-  ctx.check(bool(cat) and 'sorted(' in t2, 'R1', 'categorical feasible values sorted', fi.node,
-            '_get_categories sorts', 'categories are not sorted', construct='cat-fv', func=fi.qualname)
-  # mixed kinds raise: the else of the second arm raises
-  mixed = False
-  for a in fv_arms:
-    f_succ = [m for m, lab in a.succs if lab == 'F']
-    if f_succ and isinstance(f_succ[0].ast, ast.Raise):
-      mixed = True
-  ctx.check(mixed, 'R1', 'mixed value kinds rejected', fi.node, 'else: raise ValueError', 'mixed numeric/string feasible values are accepted',
-            construct='mixed', func=fi.qualname)
+
+  def under_kind_test(nodes, kinds) -> bool:
+    for n_ in nodes:
+      conds = [(unparse(c_, 0), pol) for c_, pol in g.controlling_conditions(n_)]
+      if not any(pol and t_.startswith('all(') and 'isinstance(' in t_ and any(k in t_ for k in kinds) for t_, pol in conds):
+        return False
+    return bool(nodes)
+  ctx.check(under_kind_test(num, ('float', 'int')) and 'sorted(' in t1 and 'isfinite' in t1 and 'raise' in t1, 'R1',
+            'numeric feasible values: finite and sorted', fi.node,
+            '_get_feasible_points_and_bounds (finiteness check, sort) is applied under the all-numeric test',
+            'numeric feasible values are not normalised (finite, sorted)', construct='numeric-fv', func=fi.qualname)
+  ctx.check(under_kind_test(cat, ('str',)) and 'sorted(' in t2, 'R1', 'categorical feasible values sorted', fi.node,
+            '_get_categories sorts, applied under the all-strings test', 'categories are not sorted', construct='cat-fv', func=fi.qualname)
+  mixed = bool(num + cat) and cn not in g.reachable([x for x in fv_true if x not in num + cat], blocked=num + cat, include_starts=True)
+  ctx.check(mixed, 'R1', 'mixed value kinds rejected', fi.node,
+            'every path from "feasible values given" to the constructor passes one of the two normalisers (anything else raises)',
+            'mixed numeric/string feasible values are accepted', construct='mixed', func=fi.qualname)
 
 
 def r2_add(ctx, ss) -> None:
@@ -287,22 +303,35 @@ def r5_feasible(ctx, pc) -> None:
   fi = pc.methods['_assert_feasible']
   want = {'DOUBLE': ('as_float', '_assert_bounds'), 'INTEGER': ('as_int', '_assert_bounds'),
           'DISCRETE': ('as_float', '_assert_in_feasible_values'), 'CATEGORICAL': ('as_str', '_assert_in_feasible_values')}
-  found: Dict[str, str] = {}
-  chain = [n for n in ast.walk(fi.node) if isinstance(n, ast.If) and 'self.type == ParameterType.' in unparse(n.test, 0)]
-  for n in chain:
-    ty = unparse(n.test, 0).rsplit('.', 1)[-1]
-    found[ty] = unparse(ast.Module(body=n.body, type_ignores=[]), 0)
+  # the dispatch is evaluated member by member: with self.type bound to one ParameterType at a time, which checker
+  # is called with which accessor?  (independent of if/elif vs early returns, hoisted locals, ...)
+  from vzstatic import enumeval
+  pt_cls = ctx.index.need_class('vizier._src.pyvizier.shared.trial.ParameterType')
+  members = [k for k in pt_cls.enum_members] if getattr(pt_cls, 'enum_members', None) else ['DOUBLE', 'INTEGER', 'CATEGORICAL', 'DISCRETE', 'CUSTOM']
+  subjects = {'self.type', 'self._type'}
+  for n in ast.walk(fi.node):
+    if isinstance(n, ast.Assign) and len(n.targets) == 1 and isinstance(n.targets[0], ast.Name) and unparse(n.value, 0) in subjects:
+      subjects.add(n.targets[0].id)
   probs = []
-  for ty, (acc, chk) in want.items():
-    b = found.get(ty, '')
-    if acc not in b or chk not in b:
-      probs.append(f'{ty}: expected {chk}(value.{acc}), found `{b[:60]}`')
-  last = chain[-1] if chain else None
-  ends_raise = last is not None and last.orelse and isinstance(last.orelse[-1], ast.Raise)
+  ends_raise = True
+  for m_ in members:
+    tr = enumeval.trace(fi.node.body, lambda t, m_=m_: enumeval.eval_test(t, {s_: m_ for s_ in subjects}))
+    if tr is None:
+      raise AnalysisError(f'_assert_feasible: dispatch not decidable for ParameterType.{m_}')
+    txt = ' ; '.join(unparse(st, 0) for st in tr)
+    if m_ in want:
+      acc, chk = want[m_]
+      calls_ = [c_ for st in tr for c_ in ast.walk(st) if isinstance(c_, ast.Call) and (dotted(c_.func) or '').endswith(chk)]
+      ok_ = any(any(isinstance(x, ast.Attribute) and x.attr == acc for x in ast.walk(c_)) for c_ in calls_)
+      if not ok_:
+        probs.append(f'{m_}: expected {chk}(value.{acc}), found `{txt[-80:]}`')
+    else:
+      if not (tr and isinstance(tr[-1], ast.Raise)):
+        ends_raise = False
   ctx.check(not probs and ends_raise, 'R5', '_assert_feasible dispatch', fi.node, 'four arms with matching accessors, else raise',
             '; '.join(probs) or 'unknown types do not raise', construct='; '.join(probs) or 'else', func=fi.qualname)
   ct = unparse(fi.node, 0)
-  ctx.check('self.type.assert_correct_type(value)' in ct, 'R5', '_assert_feasible checks the value type first', fi.node,
+  ctx.check('.assert_correct_type(value)' in ct, 'R5', '_assert_feasible checks the value type first', fi.node,
             'assert_correct_type before the range test', 'type compatibility is not checked', construct='type-first', func=fi.qualname)
   c = pc.methods['contains']
   hs = [h for h in ast.walk(c.node) if isinstance(h, ast.ExceptHandler)]
